@@ -1152,6 +1152,14 @@ func (x *Exec) applyAssigns(s *State, fi *FuncInfo, ct *Contract, env map[types.
 	if !ct.HasAssign {
 		if x.mayTouchHeap(sig, recv) {
 			x.havocAllHeap(s)
+		} else if !valueResults(sig) {
+			// a callee that returns references may have allocated them: the allocation counters may grow (without
+			// this, `ensures fresh(result)` would contradict the typing fact "result is allocated")
+			for _, k := range []string{"$alloc", "$balloc"} {
+				old := x.heapGet(s, k, SInt)
+				x.havocHeap(s, k)
+				s.assume(Cmp("<=", old, s.heap[k]))
+			}
 		}
 		return
 	}
